@@ -12,8 +12,8 @@ HERE = os.path.dirname(os.path.abspath(__file__))
 VERIF = os.path.dirname(HERE)
 MUTANTS = []  # (prop, name, file, old, new)
 
-def mut(prop, name, file, old, new, tier=None):
-    MUTANTS.append(dict(prop=prop, name=name, file=file, old=old, new=new, tier=tier))
+def mut(prop, name, file, old, new, tier=None, more=()):
+    MUTANTS.append(dict(prop=prop, name=name, file=file, old=old, new=new, tier=tier, more=list(more)))
 
 exec(open(os.path.join(VERIF, 'mutants', 'table.py')).read())
 
@@ -38,11 +38,15 @@ def main():
             d = subprocess.run(['git', '-C', '/repo', 'diff', 'HEAD'], capture_output=True, text=True).stdout
             if d.strip():
                 subprocess.run(['git', '-C', repo, 'apply'], input=d, text=True, check=True)
-            p = os.path.join(repo, m['file'])
-            s = open(p).read()
-            if s.count(m['old']) != 1:
-                results.append((m, 'STALE', 'pattern occurs %d times' % s.count(m['old']), 0)); continue
-            open(p, 'w').write(s.replace(m['old'], m['new']))
+            stale = None
+            for (f_, old_, new_) in [(m['file'], m['old'], m['new'])] + m['more']:
+                p = os.path.join(repo, f_)
+                s = open(p).read()
+                if s.count(old_) != 1:
+                    stale = 'pattern occurs %d times in %s' % (s.count(old_), f_); break
+                open(p, 'w').write(s.replace(old_, new_))
+            if stale:
+                results.append((m, 'STALE', stale, 0)); continue
             b = subprocess.run(['go', 'build', './...'], cwd=repo, env=env, capture_output=True, text=True)
             if b.returncode != 0:
                 results.append((m, 'NOBUILD', b.stderr[-300:], 0)); continue
